@@ -166,18 +166,25 @@ class SmiV2Lexer(AbstractLexer):
     def t_CHOICE(self, t):
         r'CHOICE(?!-(?!-)|[a-zA-Z0-9])'
         t.lexer.begin('choice')
+        t.lexer.choiceBraces = 0
         return t
 
     def t_choice_newline(self, t):
         r'\r\n|\n|\r'
         t.lexer.lineno += 1
 
+    def t_choice_open(self, t):
+        r'\{'
+        t.lexer.choiceBraces += 1
+
     def t_choice_end(self, t):
         r'\}'
-        t.lexer.begin('INITIAL')
+        t.lexer.choiceBraces -= 1
+        if t.lexer.choiceBraces <= 0:
+            t.lexer.begin('INITIAL')
 
     def t_choice_body(self, t):
-        r'[^\}]+'
+        r'[^\{\}]+'
         t.lexer.lineno += len(re.findall(r'\r\n|\n|\r', t.value))
 
     # Comment handling
